@@ -113,4 +113,84 @@ theorem constants :
 example : validRegs [⟨0, 2⟩, ⟨5, 7⟩, ⟨7, 9⟩] = true ∧ gaps [⟨0, 2⟩, ⟨5, 7⟩, ⟨7, 9⟩] = [⟨2, 5⟩, ⟨7, 7⟩] ∧
     inGap (gaps [⟨0, 2⟩, ⟨5, 7⟩, ⟨7, 9⟩]) 4 = true ∧ inGap (gaps [⟨0, 2⟩, ⟨5, 7⟩, ⟨7, 9⟩]) 7 = false := by decide
 
+/-! ### the table as written by a dumper is the table read -/
+
+/-- the region table as the disc format writes it: count, 4 pad bytes, big-endian (first, end) pairs -/
+def encodeTable (regs : List Region) : Bytes :=
+  beN 4 regs.length ++ zeros 4 ++ (regs.map (fun r => beN 4 r.start ++ beN 4 r.stop)).flatten
+
+def fileRd (b : Bytes) : Nat → Nat → Bytes := fun off n => slice b off n
+
+theorem pairs_length (regs : List Region) : ((regs.map (fun r => beN 4 r.start ++ beN 4 r.stop)).flatten).length = 8 * regs.length := by
+  induction regs with
+  | nil => rfl
+  | cons r rest ih => simp [ih]; omega
+
+theorem pair_at (regs : List Region) (i : Nat) (r : Region) (h : regs[i]? = some r) (more : Bytes) :
+    slice ((regs.map (fun r => beN 4 r.start ++ beN 4 r.stop)).flatten ++ more) (8 * i) 4 = beN 4 r.start ∧
+    slice ((regs.map (fun r => beN 4 r.start ++ beN 4 r.stop)).flatten ++ more) (8 * i + 4) 4 = beN 4 r.stop := by
+  induction regs generalizing i with
+  | nil => simp at h
+  | cons q rest ih =>
+    cases i with
+    | zero =>
+      simp at h; subst h
+      simp [slice, List.take_append, List.drop_append]
+    | succ i =>
+      simp only [List.getElem?_cons_succ] at h
+      obtain ⟨a, b⟩ := ih i h
+      simp only [List.map_cons, List.flatten_cons, List.append_assoc]
+      constructor
+      · rw [slice_append_right _ _ _ _ (by simp; omega)]
+        have : 8 * (i + 1) - (beN 4 q.start).length = 4 + 8 * i := by simp only [beN_length]; omega
+        rw [this, slice_append_right _ _ _ _ (by simp)]
+        have : 4 + 8 * i - (beN 4 q.stop).length = 8 * i := by simp
+        rw [this]; exact a
+      · rw [slice_append_right _ _ _ _ (by simp)]
+        have : 8 * (i + 1) + 4 - (beN 4 q.start).length = 4 + (8 * i + 4) := by simp only [beN_length]; omega
+        rw [this, slice_append_right _ _ _ _ (by simp)]
+        have : 4 + (8 * i + 4) - (beN 4 q.stop).length = 8 * i + 4 := by simp
+        rw [this]; exact b
+
+/-- **decode ∘ encode = id for the region table**: a table of up to 255 regions with 32-bit borders,
+    followed by any image content, is read back exactly -/
+theorem table_roundtrip (regs : List Region) (hn : regs.length ≤ maxRegions)
+    (hb : ∀ r ∈ regs, r.start < 2 ^ 32 ∧ r.stop < 2 ^ 32) (rest : Bytes) :
+    decodeTable (fileRd (encodeTable regs ++ rest)) = some regs := by
+  have hmax : maxRegions = 255 := by decide
+  have hlen := pairs_length regs
+  unfold decodeTable fileRd encodeTable
+  simp only
+  have h8 : (slice (beN 4 regs.length ++ zeros 4 ++ (regs.map (fun r => beN 4 r.start ++ beN 4 r.stop)).flatten ++ rest) 0 8) =
+      beN 4 regs.length ++ zeros 4 := by
+    have t8 : (beN 4 regs.length).take 8 = beN 4 regs.length := List.take_of_length_le (by simp)
+    simp [slice, List.take_append, t8]
+  rw [h8]
+  have hc : fromBE ((beN 4 regs.length ++ zeros 4).take 4) = regs.length := by
+    have t4 : (beN 4 regs.length ++ zeros 4).take 4 = beN 4 regs.length := by
+      rw [List.take_append_of_le_length (by simp)]; exact List.take_of_length_le (by simp)
+    rw [t4, fromBE_beN]
+    exact Nat.mod_eq_of_lt (by omega)
+  simp only [hc]
+  have hraw : slice (beN 4 regs.length ++ zeros 4 ++ (regs.map (fun r => beN 4 r.start ++ beN 4 r.stop)).flatten ++ rest) 8 (8 * regs.length) =
+      (regs.map (fun r => beN 4 r.start ++ beN 4 r.stop)).flatten := by
+    rw [List.append_assoc, slice_append_right _ _ _ _ (by simp)]
+    simp only [List.length_append, beN_length, zeros_length, Nat.sub_self]
+    rw [← hlen]; simp [slice]
+  rw [hraw]
+  simp only [List.length_append, beN_length, zeros_length, hlen]
+  have hnot : ¬ regs.length > maxRegions := by omega
+  simp only [bne_self_eq_false, Bool.false_eq_true, if_false, hnot]
+  congr 1
+  apply List.ext_getElem?
+  intro i
+  by_cases hi : i < regs.length
+  · have hr : regs[i]? = some regs[i] := List.getElem?_eq_getElem hi
+    obtain ⟨a, b⟩ := pair_at regs i regs[i] hr []
+    simp only [List.append_nil] at a b
+    simp only [List.getElem?_map, List.getElem?_range hi, Option.map_some, hr, a, b, fromBE_beN]
+    have := hb regs[i] (List.getElem_mem hi)
+    rw [Nat.mod_eq_of_lt (by omega), Nat.mod_eq_of_lt (by omega)]
+  · simp [List.getElem?_eq_none (Nat.le_of_not_lt hi), hi]
+
 end Ps3.Props.C10
